@@ -274,6 +274,12 @@ def time_shift(z, /, shift, crop=False):
             f"got {shift.ndim} dimensions!"
         )
 
+    if any(n not in (1, m) for n, m in zip(shift.shape, z.sample_shape)):
+        raise ValueError(
+            f"shift of shape {shift.shape} does not match the sample shape "
+            f"{z.sample_shape}."
+        )
+
     # A shift within 1e-8 of a whole number of samples is that number (time
     # Quantities convert with rounding errors: 2000 ns at 500 kHz is
     # 1.0000000000000002 samples).
@@ -361,6 +367,12 @@ def freq_shift(z, /, shift):
         raise ValueError(
             f"shift has too many dimensions. Expected <= {z.ndim - 1} dimensions, "
             f"got {shift.ndim} dimensions!"
+        )
+
+    if any(n not in (1, m) for n, m in zip(shift.shape, z.sample_shape)):
+        raise ValueError(
+            f"shift of shape {shift.shape} does not match the sample shape "
+            f"{z.sample_shape}."
         )
 
     ix = (slice(None),) * shift.ndim + (None,) * (z.ndim - shift.ndim - 1)
